@@ -189,7 +189,7 @@ def gen_cases(tier, seed):
         if rng.random() < 0.15:          # float-valued observations (quarters), not only integers
             y = [v if v == nd else v + rng.choice([0.25, 0.5, -0.25]) for v in y]
         api = rng.choice(["kernel", "kernel", "whits_s", "whits_sg"])
-        c = {"op": "fixed", "api": api, "y": [core.rat(x) for x in y], "nd": str(nd), "hasp": hasp, "p": fl(rng.choice([0.1, 0.5, 0.9, 0.95, round(rng.uniform(0.02, 0.98), 2)])) if hasp else "0"}
+        c = {"op": "fixed", "api": api, "y": [core.rat(x) for x in y], "nd": str(nd), "hasp": hasp, "p": fl(rng.choice([0.1, 0.5, 0.9, 0.95, round(rng.uniform(0.02, 0.98), 2), 0.001, 0.004, 0.995, 0.999])) if hasp else "0"}
         if api == "whits_sg":
             sg = rng.choice([-3.0, -1.0, 0.0, 0.5, 1.0, 2.0, 3.2, 5.0, round(rng.uniform(-3, 5), 1), "-inf"])
             c["sg"] = "-inf" if sg == "-inf" else fl(sg)
